@@ -12,3 +12,6 @@ import XPathV.Theorems.C13
 #print axioms XPathV.Theorems.C13.C13_wrap_group
 #print axioms XPathV.Theorems.C13.C13_wrap_union_self
 #print axioms XPathV.Theorems.C13.C13_wrap_not_not
+#print axioms XPathV.Theorems.C13.C13_absolute_build_with_predicates
+#print axioms XPathV.Theorems.C13.C13_relative_compose_with_predicates
+#print axioms XPathV.Theorems.C13.C13_compose_spec_with_predicates
